@@ -154,12 +154,20 @@ class BNHistory:
             beta = L.bias.data if self.affine else None
             k = 0
             training = True
+            track_now = self.track
             last_eval = None
             nfw = 0
             for ei, ev in enumerate(self.events):
                 if ev in ("train", "eval"):
                     getattr(L, ev)()
                     training = ev == "train"
+                    continue
+                if ev in ("freeze", "unfreeze"):
+                    getattr(L, ev)()            # whether the affine parameters are trainable is none of the statistics' business
+                    continue
+                if ev in ("flag_off", "flag_on"):
+                    L.track_running_stats = ev == "flag_on"     # switched after construction: the buffers stay (PyTorch semantics: eval keeps using them, nothing updates them while off)
+                    track_now = ev == "flag_on"
                     continue
                 from synapgrad.tensor import Tensor
                 if ev == "bw":
@@ -195,7 +203,7 @@ class BNHistory:
                     break
                 # ---- specification
                 use_batch = training or not self.track
-                if training and self.track:
+                if training and self.track and track_now:
                     k += 1
                     f = mom if mom is not None else 1.0 / float(k)
                 else:
@@ -205,7 +213,7 @@ class BNHistory:
                 except R.Reject as e:
                     res["status"] = "rejected"
                     return
-                if self.track and not training:
+                if self.track and (not training or not track_now):
                     nrm, nrv = rm, rv
                 info = {"event_index": ei, "training": training, "forward_number": nfw}
                 pairs = [("output_is_the_documented_normalisation", np.asarray(out.data, dtype=object), y)]
@@ -397,6 +405,13 @@ def cases(tier, seed):
                         continue
                     for h in (hist if (affine and track) or tier == "thorough" else hist[2:4] + hist[6:7]):
                         cs.append(BNHistory(cls, shape, affine, track, mom, h))
+                    # the layer's parameters are frozen / thawed, or its track_running_stats flag is switched after construction, in the middle of a history
+                    if track and mom != 0.25:
+                        extra = [("fw", "flag_off", "fw", "eval", "fw", "again"), ("flag_off", "eval", "fw", "flag_on", "train", "fw"), ("fw", "eval", "flag_off", "fw", "bw")]
+                        if affine:
+                            extra += [("fw", "freeze", "fw", "fw", "eval", "fw"), ("freeze", "fw", "unfreeze", "fw", "eval", "fw"), ("fw", "freeze", "eval", "fw", "train", "fw", "bw")]
+                        for h in extra:
+                            cs.append(BNHistory(cls, shape, affine, track, mom, h))
     for p in (0, 0.1, 0.5, 0.9, 1, 1.0):
         for training in (True, False):
             for sd in ((1, 2) if tier == "quick" else (1, 2, 3, 4, 5)):
